@@ -197,6 +197,7 @@ class Broker(object):
     # ---- logging -------------------------------------------------------------------------------
     def log(self, op, **kw):
         kw["op"] = op; kw["step"] = self.step
+        kw.setdefault("now", self.clock.now)
         if self.record_sites and "site" not in kw:
             kw["site"] = _call_site()
         self.oplog.append(kw)
